@@ -15,10 +15,22 @@ for seed in "$@"; do
   for m in $(cat /w/out/gomods.txt); do
     n=$(echo "$m" | tr '/.' '__')
     (cd "$wt/$m" && go test -json -vet=off -count=1 -timeout 25m ./... > "$out/$n.json" 2>"$out/$n.err")
-    # the suite has a few load-sensitive tests (1 ms deadlines, a 100 us context): a module with a failure or a
-    # time-out is run a second time and a test counts as passing if it passed in either run (BASELINE's stable_pass
-    # was itself established over several runs)
-    if grep -q '"Action":"fail"' "$out/$n.json"; then
+    # the suite has a few load-sensitive tests (1 ms deadlines, a 100 us context): if a stable_pass test of this module
+    # did not pass, the module is run a second time and a test counts as passing if it passed in either run
+    # (BASELINE's stable_pass was itself established over several runs)
+    if ! python3 - "$out/$n.json" <<'PY'
+import json,sys
+base=set(json.load(open('/root/.vp/BASELINE.json'))['stable_pass'])
+passed=set(); pkgs=set()
+for line in open(sys.argv[1], errors='replace'):
+    try: e=json.loads(line)
+    except Exception: continue
+    if e.get('Package'): pkgs.add(e['Package'])
+    if e.get('Test') and e.get('Action')=='pass': passed.add(e['Package']+'::'+e['Test'])
+need={t for t in base if t.split('::')[0] in pkgs}
+sys.exit(0 if need<=passed else 1)
+PY
+    then
       (cd "$wt/$m" && go test -json -vet=off -count=1 -timeout 25m ./... > "$out/${n}_retry.json" 2>"$out/${n}_retry.err")
     fi
   done
